@@ -374,6 +374,10 @@ pub struct GenParams {
     pub owners: bool,
     /// Largest file size to generate when the block size is huge.
     pub max_plain_size: usize,
+    /// Histories may start at band b99998 (else at most b9998). With a first version that high
+    /// and later deleted, every listing of an interrupted version walks down a hundred thousand
+    /// band numbers: only the check that is about the numbering (C02) pays for that.
+    pub band_numbers_to_99998: bool,
 }
 
 impl GenParams {
@@ -388,6 +392,7 @@ impl GenParams {
             hostile_modes: true,
             owners: true,
             max_plain_size: 65536,
+            band_numbers_to_99998: false,
         }
     }
 }
